@@ -81,7 +81,8 @@ class World(object):
         self.dc.append(self.pool['d1'])
         self.kind = scn.kind
         self.viewer = self.app.new_data_viewer(viewer_class(scn.kind))
-        self.given = []          # model: datasets given to the viewer and still shown
+        self.given = []          # model: datasets whose data layer is in the viewer
+        self.orphans = []        # model: [dataset name, group] subset layers left after only the data layer was removed
         self.removed_groups = []
         self.extra = False       # extra component 'w' on d0
         self.derived = False     # derived component 'sum' on d0
@@ -130,7 +131,8 @@ def expected_choices(helper):
 
 class Scenario(object):
 
-    def __init__(self, kind, max_groups=1, comps=True, pickers=True, restore=True):
+    def __init__(self, kind, max_groups=1, comps=True, pickers=True, restore=True, layer_ops=True):
+        self.layer_ops = layer_ops
         self.kind = kind
         self.max_groups = max_groups
         self.comps = comps
@@ -150,8 +152,12 @@ class Scenario(object):
                 ops.append(['dc_remove', n])
                 if n not in w.given:
                     ops.append(['v_add', n])
+                    if any(o[0] == n for o in w.orphans):
+                        ops.append(['v_remove', n])
                 else:
                     ops.append(['v_remove', n])
+                    if self.layer_ops:
+                        ops.append(['v_remove_layer', n])
             else:
                 ops.append(['dc_append', n])
         ng = len(w.dc.subset_groups)
@@ -188,20 +194,30 @@ class Scenario(object):
                 w.dc.remove(w.pool[op[1]])
                 if op[1] in w.given:
                     w.given.remove(op[1])
+                w.orphans = [o for o in w.orphans if o[0] != op[1]]
             elif k == 'dc_append':
                 w.dc.append(w.pool[op[1]])
             elif k == 'v_add':
                 if v.add_data(w.pool[op[1]]):
                     w.given.append(op[1])
+                    w.orphans = [o for o in w.orphans if o[0] != op[1]]
             elif k == 'v_remove':
                 v.remove_data(w.pool[op[1]])
+                if op[1] in w.given:
+                    w.given.remove(op[1])
+                w.orphans = [o for o in w.orphans if o[0] != op[1]]
+            elif k == 'v_remove_layer':
+                # the user removes only the dataset's own layer; its subset layers stay
+                v.remove_layer(w.pool[op[1]])
                 w.given.remove(op[1])
+                w.orphans += [[op[1], s.group] for s in w.pool[op[1]].subsets]
             elif k == 'new_group':
                 w.dc.new_subset_group(subset_state=w.cids['x'] > 2.5, label='g')
             elif k == 'remove_group':
                 g = w.dc.subset_groups[op[1]]
                 w.dc.remove_subset_group(g)
                 w.removed_groups.append(g)
+                w.orphans = [o for o in w.orphans if o[1] is not g]
             elif k == 'set_state':
                 w.dc.subset_groups[op[1]].subset_state = w.cids['y'] < 3.5
             elif k == 'add_comp':
@@ -251,6 +267,7 @@ class Scenario(object):
         app2 = u.object('__main__')
         v2 = u.object(name)
         names = [w.name_of(d) for d in w.dc]
+        orphan_idx = [[o[0], [i for i, g in enumerate(w.dc.subset_groups) if g is o[1]][0]] for o in w.orphans]
         w.close()
         w.app, w.viewer, w.dc = app2, v2, app2.data_collection
         for n, d in zip(names, w.dc):
@@ -258,6 +275,7 @@ class Scenario(object):
         w.cids = {'x': w.pool['d0'].id['x'], 'y': w.pool['d0'].id['y'], 'z': w.pool['d1'].id['z']} \
             if all(w.in_dc(n) for n in ('d0', 'd1')) else w.cids
         w.removed_groups = []
+        w.orphans = [[n, w.dc.subset_groups[i]] for n, i in orphan_idx]
 
     # -- oracle ------------------------------------------------------------------------
     def check(self, w):
@@ -271,6 +289,8 @@ class Scenario(object):
             want.append(('data', n))
             for s in d.subsets:
                 want.append(('subset', n, [i for i, g in enumerate(w.dc.subset_groups) if g is getattr(s, 'group', None)]))
+        for n, grp in w.orphans:
+            want.append(('subset', n, [i for i, g in enumerate(w.dc.subset_groups) if g is grp]))
         got = []
         for la in layers:
             l = la.layer
@@ -363,6 +383,7 @@ class Scenario(object):
             lay.append(['d', w.name_of(l)] if isinstance(l, BaseData) else
                        ['s', w.name_of(l.data), [i for i, g in enumerate(w.dc.subset_groups) if g is getattr(l, 'group', None)]])
         c = dict(dc=[w.name_of(d) for d in w.dc], given=w.given, layers=lay,
+                 orphans=sorted([o[0], [i for i, g in enumerate(w.dc.subset_groups) if g is o[1]]] for o in w.orphans),
                  nstate=len(st.layers), groups=[repr(type(g.subset_state).__name__) + str(_thr(g)) for g in w.dc.subset_groups],
                  subsets={n: len(d.subsets) for n, d in w.pool.items()}, extra=w.extra, nrem=len(w.removed_groups),
                  comps={n: [x.label for x in d.components] for n, d in w.pool.items()})
@@ -498,7 +519,7 @@ def run(tier):
         t0, coverage=cov, confirm=confirm,
         assumptions=['FigureCanvas draw/draw_idle are stubbed (rendering is not observable to the property)',
                      'a dataset removed from the collection is no longer "given" to the viewer when re-appended',
-                     'layers are added through add_data only (subset layers follow their dataset)',
+                     'layers are added through add_data; remove_layer is applied to dataset layers only (its subset layers then stay until the dataset, the group or remove_data removes them, and new groups add no layer for it)',
                      'pickers: every ComponentIDComboHelper on the viewer state; relevant datasets = datasets of '
                      'the layers (scatter, histogram) or the reference dataset (image, profile)'])
 
